@@ -200,6 +200,13 @@ def run(ctx: Ctx):
     for k, cs in enumerate(cases(ctx, 'c17-tiny', n // 4)):
         one(ctx, cs, pname='tiny', over=[{}, {'types': ('**kern',), 'max_spines': 1}, {'types': ('**kern',), 'p_sig': 0.9},
                                          {'p_tandem': 0.6}][k % 4])
+    # long scores (more than 1000 lines): one melody without any chord, one with its only chord near the end
+    for k, cs in enumerate(cases(ctx, 'c17-long', 2 if ctx.tier == 'quick' else 4)):
+        ctx.mon('long_documents')
+        one(ctx, cs, pname='kern_core', over={'measures': (12, 14), 'rows': (85, 95), 'max_spines': 1, 'p_split': 0.0, 'p_gcomment': 0.0,
+                                              'p_pre_gcomment': 0.0, 'p_post_gcomment': 0.0, 'p_fcomment': 0.0, 'p_tandem': 0.0,
+                                              'p_null_run': 0.0, 'p_blank': 0.0, 'p_bbox': 0.0, 'empty_measures': 0.0,
+                                              'p_chord': 0.0 if k % 2 == 0 else 0.001})
     if ctx.monitor_events.get('documents_without_a_measure', 0) < 5 and ctx.shard is None:
         ctx.inconc('fewer than 5 documents without a measure in the workload')
     if ctx.monitor_events.get('monophonic=True', 0) == 0 and ctx.shard is None:
